@@ -69,7 +69,7 @@ type Branch struct {
 type Repo struct {
 	Name           string
 	ID             uint32
-	TenantID       int               `json:",omitempty"`
+	TenantID       int `json:",omitempty"`
 	Branches       []Branch
 	RawConfig      map[string]string `json:",omitempty"`
 	Metadata       map[string]string `json:",omitempty"`
